@@ -186,6 +186,59 @@ CLAIMED = {
              "operator must visit every (source, destination) tile pair once and its int64 sum/xor/max fold must equal the sequential fold. "
              "The reductions (reduce.jdf, reduce_row/col) are exercised by replays only: they fail on the unchanged tree (known findings C22-F2/F3).",
         design_ref="5/C22"),
+    "C08": dict(
+        engine="dsched+rc+stress",
+        technique="schedule-owned property testing of all 11 scheduler modules on the real execution streams of a never-started context; bounded-preemption DFS; 8..16-stream stress; exactly-once oracle",
+        text="For each module, harness threads impersonate the execution streams (and the communication thread) and run generated "
+             "schedule / select / reschedule programs with rings of 1..64 tasks, distances 0..3 and pre-filled bounded buffers, under generated "
+             "interleavings. Oracle: every scheduled task is returned exactly once by a stream of the same VP and nothing is left after the "
+             "drain. The 2-stream / one-op / <= 2-preemption space is enumerated; a free-running stress part adds real parallelism. Single VP.",
+        design_ref="5/C08"),
+    "C09": dict(
+        engine="rc+exhaustive",
+        technique="model-based stateful property testing of the ap / ip / spq scheduler modules against priority-queue models; exhaustive short sequences",
+        text="One stream, no concurrency: schedule(ring, distance)/select() sequences with priorities -5..5 plus INT_MIN/INT_MAX and rings of 1..16. "
+             "Models: ap = stable max-queue, spq = lexicographic (distance, priority, arrival) with the reported distance, ip = minimum priority "
+             "first (ties unspecified, distance 0 only). All sequences of <= 5 operations (spq <= 4) over a small alphabet are enumerated.",
+        design_ref="5/C09"),
+    "C10": dict(
+        engine="dsched+rc",
+        technique="schedule-owned protocol histories on the real local termination detector; exhaustive DFS for 2 workers; deterministic bounded-liveness",
+        text="A real taskpool monitored by the local termdet module; worker threads perform balanced addto_nb_tasks / addto_runtime_actions / "
+             "set_nb_tasks sequences while the main thread calls taskpool_ready at a generated point. Oracle: the callback runs at most once, only "
+             "after ready with both counters zero; state is never TERMINATED while a hold is out; after everything is released termination is "
+             "reported (no dsched deadlock / step bound). 540 program pairs x all schedules with <= 2 preemptions enumerated.",
+        design_ref="5/C10"),
+    "C25": dict(
+        engine="dsched+rc+H3",
+        technique="schedule-owned concurrency testing of the data repository against an exact-reclamation model, reclaim events observed through hook H3; per-key linearizability; exhaustive tiny space; stress",
+        text="1..3 creators per key interleave lookup_entry_and_create / addto_usage_limit with the users' entry_used_once under generated schedules. "
+             "Oracle: an entry is findable iff a creator has not announced its limit or fewer uses than announced happened; each entry is "
+             "reclaimed exactly once, at the step the model says, never earlier; lookups agree with the model under linearization.",
+        design_ref="5/C25"),
+    "C37": dict(
+        engine="rc+dsched+mpi",
+        technique="stateful model-based testing of the taskpool registry (map id -> taskpool), concurrent reservation under dsched, and Hypothesis-generated multi-rank sync_ids cases",
+        text="reserve / register / lookup / unregister sequences are compared with a map model (forked cases from a pristine registry and one "
+             "long persistent history); ids reserved concurrently are distinct; on 2..4 MPI ranks each rank reserves a different generated number "
+             "of ids, then after parsec_taskpool_sync_ids the next id is identical on all ranks and above every id handed out before.",
+        design_ref="5/C37"),
+    "C41": dict(
+        engine="rc+dsched",
+        technique="stateful model-based testing of info registries and object arrays (map model) + schedule-owned per-slot linearizability under array growth",
+        text="register / unregister / lookup / set / get / test_and_set sequences on 1..3 object arrays attached at different times, with tagged "
+             "pointer values whose low bytes are non-zero. Oracle: live names have distinct ids, lookups return them, each slot returns the "
+             "last value set or the constructed default, test_and_set replaces only on a match, and no operation (in particular growth) "
+             "changes another slot. Concurrent set/get/test_and_set during registrations are linearizable per slot.",
+        design_ref="5/C41"),
+    "C42": dict(
+        engine="rc+subprocess(E9)",
+        technique="round-trip property testing of the profiling trace writer against the real dbpreader, one process per trace (PROF_TRACE build)",
+        text="Generated dictionaries (names, attributes, convertors, info lengths), global and per-stream infos, 1..3 ranks x 1..8 concurrent "
+             "streams x up to 3000 events (flags, 64-bit ids, payloads 0..200 B, 1..8-page buffers) are written through the standalone profiling "
+             "API and read back with tools/profiling/dbpreader.c. Oracle: dictionary, infos, per-stream event sequence and payload bytes are "
+             "equal, timestamps are monotone per stream.",
+        design_ref="5/C42"),
     "C23": dict(
         engine="ptg(E5)+hypothesis",
         technique="generated parameter spaces; key distinctness and key_print round-trip oracle on the generated make_key/key_print",
